@@ -158,6 +158,10 @@ def pcm(N):
 def prom(a):
     """The mathematical value of integer samples (no wrap-around): promote integer arrays to float64."""
     a = np.asarray(a)
+    if a.dtype == np.float32:
+        return a.astype(np.float64)         # exact widening: the mathematical value of a single-precision record
+    if a.dtype == np.complex64:
+        return a.astype(np.complex128)
     return a.astype(float) if a.dtype.kind in 'iub' else a
 
 
@@ -187,3 +191,20 @@ def strided(fam, n=2):
         buf[1::2] = -7.0 * x[::-1] + 3.0
         out.append((name + '[::2]', buf[0::2]))
     return out
+
+
+def single(fam, n=3):
+    """Single-precision copies (float32 / complex64, e.g. SDR IQ captures and audio decoded to float32) of the first n float records of a
+    family.  The mathematical value of the record is its exact widening to double precision (done by the reference models);
+    the implementation may compute in single precision, so such records are judged at a single-precision tolerance."""
+    out = []
+    for name, x in fam:
+        x = np.asarray(x)
+        if x.dtype.kind not in 'fc' or len(out) >= n:
+            continue
+        out.append((name + ':f32', x.astype(np.complex64 if x.dtype.kind == 'c' else np.float32)))
+    return out
+
+
+def is_single(x):
+    return np.asarray(x).dtype in (np.float32, np.complex64)
